@@ -20,6 +20,19 @@ CHECKS = {
             'words x 3 IT positions and for at-least-one-word-per-feasible-decoder-path, sampled elsewhere.',
             'Trusted: the path enumeration of vf/trace_decode.py (partition checked by model counting); valid-state '
             'generator of vf/scen.py; CPython.', 'DESIGN.md §2 C18'),
+    'C19': ('runtime monitoring: full-state diff of real User-mode steps against the unprivileged location set / '
+            'architectural exception-entry shape; translation spy for LDRT/STRT-family in privileged modes',
+            'Reference-free oracle over every Thumb-16 word, every decoder path and random words in User mode '
+            '(secure/non-secure, MPU/MMU on/off); held on the executions observed.',
+            'Trusted: the unprivileged location set and the harness-programmed MPU/MMU permissions in vf/scen.py.',
+            'DESIGN.md §2 C19'),
+    'C20': ('runtime monitoring: trace equality (replay from deep copy, history independence after restore, every '
+            'interleaving of 2 x 4 events and random schedules of 2-3 instances), each scenario in a child forked from '
+            'a pristine process',
+            'Per-step traces (all registers, system registers, memory digest, escape signature) are compared with '
+            'the trace the same instance produces alone in a fresh process.',
+            'Trusted: os.fork gives a pristine interpreter state; the trace covers all architectural state of vf/observe.py.',
+            'DESIGN.md §2 C20'),
 }
 
 NOT_APPLICABLE = {}
